@@ -31,7 +31,7 @@ RULE = (
     "(items deleted inside every story).  Non-trivial = >= 2 sources/carried elements, or a blank "
     "target, or compact XML.")
 ASSUMPTIONS = ['source IDs are non-blank (a blank *source* names nothing; only blank targets are in the stated domain)']
-MANDATORY = ['multi-source', 'repeated-source-id', 'blank-target', 'compact', 'pretty', 'inspect'] + \
+MANDATORY = ['cdata', 'multi-source', 'repeated-source-id', 'blank-target', 'compact', 'pretty', 'inspect'] + \
     [f'class:{k}' for k in sorted(set(B.TAG_CLASS.values()) | set(B.EA_KINDS))]
 
 # class -> (accessor yielding the addressed story, target accessor, sources accessor, payload accessor)
@@ -351,6 +351,13 @@ def shard_enum(args):
             case = {'msg_xml': text}
             cl, nt = classes_of(text)
             col.record(case, nt, cl, judge_msg(case), key=h64(text))
+            if not pretty:
+                # the same message with IDs that need escaping, written escaped and as CDATA
+                amp = text.replace('<storyID>S', '<storyID>P&amp;L/S').replace('<itemID>I', '<itemID>a &amp; b&lt;I')
+                for t2 in (amp, B.cdataize(amp)):
+                    case = {'msg_xml': t2}
+                    cl, nt = classes_of(t2)
+                    col.record(case, nt, cl + (['cdata'] if 'CDATA' in t2 else []), judge_msg(case), key=h64(t2))
     col.scopes.append('message accessors: 26 classes x 1..4 sources/carried elements x target present/blank/absent x compact/pretty')
     return col
 
@@ -364,6 +371,8 @@ def shard_hyp(args):
         ro = draw(gen.running_order(min_stories=1, max_stories=5, rich=False))
         state = xmlcmp.state_of(ET.fromstring(ro['ro_xml']))
         _k, text = draw(gen.message(state, ro['ro_id'], faults='none', rich=True))
+        if draw(st.integers(0, 3)) == 0:
+            text = B.cdataize(text, every=draw(st.integers(1, 2)))      # IDs / slugs in CDATA sections
         return {'msg_xml': text}
 
     def one(case):
